@@ -7,4 +7,9 @@ require (
 	filippo.io/age v0.0.0
 )
 
+require (
+	golang.org/x/crypto v0.24.0 // indirect
+	golang.org/x/sys v0.21.0 // indirect
+)
+
 replace filippo.io/age => /repo
